@@ -293,7 +293,11 @@ fn gen_program_impl(rng: &mut Rng, cfg: &GenCfg, single: bool) -> Prog {
                 let a = (*rng.pick(&c)).clone();
                 let k = if let Type::Vector(k, _) = a.get_type().unwrap() { k } else { 0 };
                 let idx_t = scalar_type(if rng.chance(4, 5) { UINT64 } else { *rng.pick(&cfg.scalar_types) });
-                let idx = Value::from_scalar(rng.below(k + 1), idx_t.get_scalar_type()).unwrap_or(Value::from_scalar(0, idx_t.get_scalar_type()).unwrap());
+                                // (indices near 2^64, which meta_operation_optimizer.rs casts to i64, are mirrored by
+                // Model/Opt.v but not generated: the executable model converts indices to unary
+                // naturals in znth and cannot be run on them)
+                let iv: u64 = rng.below(k + 1);
+                let idx = Value::from_scalar(iv, idx_t.get_scalar_type()).unwrap_or(Value::from_scalar(0, idx_t.get_scalar_type()).unwrap());
                 let i = match p.try_add(vec![], Operation::Constant(idx_t, idx), &mut pool) { Some(i) => i, None => continue };
                 (vec![a, i], Operation::VectorGet)
             }
